@@ -335,6 +335,20 @@ def gen_c01(r):
     return g
 
 
+def gen_c08(r):
+    """An honest seeder with everything, and one or two *listed* peers that answer the client's
+    handshake with a handshake of another torrent or with an id other than the announced one."""
+    g, n = gen_geometry(r)
+    peers = [dict(port=7001, id="-FK0000-abcdefghijkl", incoming=False, have=[True] * n, seed=r.getrandbits(32), chunk=r.choice([0, 0, 1000]), latency_ms=r.choice([0, 5, 40]), unchoke_delay_ms=r.choice([0, 50, 400]))]
+    for j in range(r.randint(1, 2)):
+        peers.append(dict(port=7050 + j, id="-FK%04d-abcdefghijkl" % (50 + j), incoming=False, have=[False] * n, seed=r.getrandbits(32), kind="bad-handshake",
+                          bad_handshake=r.choice(["info_hash", "peer_id"]), expect_close=True, then_close=False, script=[], close_within_s=10))
+    if r.random() < 0.5:
+        peers.reverse()
+    g.update(peers=peers, tracker_faults=r.choice([[], [], ["close"], ["failure"]]), tracker_port=8000, timeout_s=90, stall_s=15)
+    return g
+
+
 def gen_c19(r, length=None):
     g = gen_c02(r)
     for p in g["peers"]:
@@ -353,7 +367,7 @@ def gen_c19(r, length=None):
     return g
 
 
-GENS = {"C02": gen_c02, "C01": gen_c01, "C19": gen_c19, "C06": gen_c06, "C04": gen_c04, "C20": gen_c20}
+GENS = {"C02": gen_c02, "C01": gen_c01, "C19": gen_c19, "C06": gen_c06, "C04": gen_c04, "C20": gen_c20, "C08": gen_c08}
 
 
 def run_cell(binary, sc, idx, root, netns):
@@ -390,6 +404,23 @@ def _judge_cell(cid, tag, asan, sc, res, m, shapes):
     if res.get("piece_problems"):
         _viol(m, "C01:%s:stored-piece-not-verified" % tag if cid == "C01" else "%s:%s:stored-piece-not-verified" % (cid, tag), "; ".join(res["piece_problems"]), wit)
         return
+    if cid == "C08":
+        badports = {p["port"]: p.get("bad_handshake") for p in sc["peers"] if p.get("bad_handshake")}
+        for h in res.get("hostile", []):
+            if h.get("port") in badports and h.get("done") and not h.get("error"):
+                _count(m, "e2e_rejected_handshake_connections")
+                if h.get("closed_after_s") is None and h.get("closed_early_at_step") is None:
+                    wit["hostile"] = h
+                    _viol(m, "C08:%s:connection-kept-after-invalid-handshake" % tag, "listed peer %s answered with a handshake whose %s is wrong; the client kept the connection open for %s s" % (h.get("port"), badports[h["port"]], h.get("waited_s")), wit)
+                    return
+        for port in badports:
+            stamps = [d["tracker_requests"] for d in res.get("dials", []) if d["port"] == port]
+            _count(m, "e2e_dials_of_rejected_peers", len(stamps))
+            for a, b in zip(stamps, stamps[1:]):
+                if b <= a:
+                    wit["dials"] = [d for d in res.get("dials", []) if d["port"] == port][:12]
+                    _viol(m, "C08:%s:rejected-peer-dialled-again-without-asking-tracker" % tag, "peer %s was dialled again after its handshake (%s wrong) had been rejected, with no announce request in between (announce requests seen at its dials: %s)" % (port, badports[port], stamps[:12]), wit)
+                    return
     if cid == "C04":
         _count(m, "%s_runs_with_torrent_elsewhere" % tag.replace("-", "_"))
         m["sets"].setdefault("torrent_locations", set()).add(sc.get("torrent_rel"))
@@ -496,7 +527,7 @@ def e2e(cid, tier, seed, jobs, scale, outdir, m, log, asan=False):
         m["inconclusive"].append("%s: binary build failed" % tag)
         return
     netns = have_netns()
-    n = {"C02": {"quick": 16, "thorough": 400}, "C01": {"quick": 8, "thorough": 200}, "C19": {"quick": 8, "thorough": 120}, "C06": {"quick": 24, "thorough": 400}, "C04": {"quick": 12, "thorough": 200}, "C20": {"quick": 6, "thorough": 24}}[cid][tier]
+    n = {"C02": {"quick": 16, "thorough": 400}, "C01": {"quick": 8, "thorough": 200}, "C19": {"quick": 8, "thorough": 120}, "C06": {"quick": 24, "thorough": 400}, "C04": {"quick": 12, "thorough": 200}, "C20": {"quick": 6, "thorough": 24}, "C08": {"quick": 8, "thorough": 120}}[cid][tier]
     if asan:
         n = {"quick": 0, "thorough": 160 if cid == "C06" else 96}[tier]
     n = max(0, int(n * scale))
